@@ -18,7 +18,7 @@ def end_time(calls, opts, sc):
     last = max([c['at'] for c in calls] + [0.0])
     n = len(calls)
     bd = max([sc.get('batch_dur', 0.0)] + list(sc.get('batch_durs', {}).values()))
-    per = opts['batch_timeout'] + bd + sc.get('item_dur', 0.0) * max(1, opts['max_batch_size']) + 1.0
+    per = opts['batch_timeout'] + bd + sc.get('tail_dur', 0.0) + sc.get('item_dur', 0.0) * max(1, opts['max_batch_size']) + 1.0
     return last + (n + 2) * per + opts.get('retention_timeout', 0.0) + 10.0
 
 
@@ -60,8 +60,13 @@ def gen(rng, n, ncalls_max, cancels=False, behaviours=True, keys=3, retention=No
         if durations:
             sc['batch_dur'] = rng.choice([0.0, 0.0, 1.0, 2.0, bt, 3 * bt])
             sc['item_dur'] = rng.choice([0.0, 0.0, 0.0, 1.0])
+            sc['tail_dur'] = rng.choice([0.0, 0.0, 1.0, bt])      # time the function spends after its last result
             if rng.random() < 0.2:
                 sc['batch_durs'] = {str(rng.randint(1, 3)): rng.choice([0.0, 3 * bt + 1.0])}
+        sc['excfam'] = rng.choice(['plain', 'plain', 'key', 'runtime', 'timeout'])
+        if rng.random() < 0.25:         # garbage collections at arbitrary instants change nothing
+            sc['gc_at'] = sorted(rng.choice([0.0, 0.5, 1.0, bt, bt + 0.5, 2 * bt, 2 * bt + 1.0, 3 * bt]) + rng.choice([0.0, 0.25])
+                                 for _ in range(rng.randint(1, 3)))
         sc['order'] = rng.choice(['fwd', 'rev', ['shuf', rng.randrange(1000)]])
         if behaviours:
             behav = {}
